@@ -542,8 +542,58 @@ impl Mon {
     }
 
     // ------------------------------------------------------------------ C03
+    /// A classic liquidation is an operation too: inside each of its two banks, what the parties
+    /// are credited (the liquidatee's debt relief, the liquidator's seized collateral) must not
+    /// exceed what the other party is debited, net of what moved to the insurance side - no prices
+    /// involved, all at the share values in force after the instruction's accrual.
+    fn c03_liquidate(&mut self, w: &World, v: &IxView, info: &IxInfo) {
+        for slot in [1usize, 2] {
+            let bk = match v.ev.pre.get(slot) {
+                Some(s) => s.key,
+                None => continue,
+            };
+            let (pre, post) = match info.banks.iter().find(|(k, _, _)| *k == bk) {
+                Some((_, Some(a), Some(b))) => (a, b),
+                _ => continue,
+            };
+            let bd = match w.bank_by_key(&bk) {
+                Some(i) => &w.banks[i],
+                None => continue,
+            };
+            let (vp, vq) = match (v.pre(&bd.k.lv).and_then(token_amount), v.post(&bd.k.lv).and_then(token_amount)) {
+                (Some(a), Some(b)) => (a as i128, b as i128),
+                _ => continue,
+            };
+            let (qp, q) = (BankQ::of(pre), BankQ::of(post));
+            let mut net_credit = zero();
+            for (_, ap, aq) in &info.accts {
+                let (pa, pl, _) = pos_bits(ap, &bk);
+                let (qa, ql, _) = pos_bits(aq, &bk);
+                net_credit += bits_to_rat(qa - pa) * &q.asv - bits_to_rat(ql - pl) * &q.lsv;
+            }
+            // fee buckets as they would stand after this instruction's own accrual are not visible;
+            // the accrual's own bucket increase is a claim of the fee side, not of the parties, so
+            // only a *decrease* of the parties' joint position is required: credited <= paid in
+            let vault_in = ri(vq - vp);
+            let eps = (&q.asv + &q.lsv + ri(2)) * ri(16) * ulp() * ri(info.accts.len().max(1) as i128);
+            self.r.eval();
+            self.r.count("C03.liquidation_legs_judged");
+            let _ = qp;
+            // the parties together may not come out ahead of what reached (or left) the vault
+            let gain = &net_credit - &vault_in;
+            self.r.max("C03.worst_liquidation_gain_units", to_f64(&gain));
+            if net_credit > eps.clone() && gain > eps {
+                self.r.violate("C03", "C03/Liquidate/parties-credited-more-than-debited", format!("bank {}: the two accounts' joint position value changed by {} while the vault changed by {} (allowance {})", bk, show(&net_credit), show(&vault_in), show(&eps)));
+            }
+        }
+    }
+
     fn c03(&mut self, w: &World, v: &IxView, info: &IxInfo) {
         let kind = info.kind;
+        if kind == Kind::Liquidate {
+            self.c03_liquidate(w, v, info);
+            return;
+        }
         if !matches!(kind, Kind::Deposit | Kind::Withdraw | Kind::Borrow | Kind::Repay) {
             return;
         }
